@@ -226,7 +226,7 @@ fn run_rep(args: &Args) {
                         let l = h.gen_line(crng.as_mut().unwrap());
                         let r = crng.as_mut().unwrap();
                         if crash && !l.starts_with('G') && !l.starts_with('Q') && r.below(2) == 0 {
-                            format!("F {} {}", 1 + r.below(16), l)
+                            format!("F {}{} {}", 1 + r.below(16), if r.below(3) == 0 { "n" } else { "" }, l)
                         } else {
                             l
                         }
@@ -692,7 +692,18 @@ fn run_sqlkill(args: &Args) {
         writeln!(ops, "{}", hdr).unwrap();
         writeln!(imp, "{}", hdr).unwrap();
         let res = std::panic::catch_unwind(std::panic::AssertUnwindSafe(|| {
-            // what a fresh handle finds
+            // what a fresh handle finds; in every other case a read-only handle looks first (what was
+            // committed must be visible to it as well, before any read-write open has tidied up)
+            let actual_ro = if i % 2 == 1 {
+                let p = dir.path().to_path_buf();
+                let r = std::panic::catch_unwind(std::panic::AssertUnwindSafe(|| {
+                    let mut ro = rep::RepRun::new_at_mode(Some(p), true);
+                    ro.dump()
+                }));
+                Some(r.unwrap_or_else(|_| vec!["read-only handle could not read the database".to_string()]))
+            } else {
+                None
+            };
             let mut fresh = rep::RepRun::new_at(Some(dir.path().to_path_buf()));
             let actual = fresh.dump();
             // the acknowledged actions on a scratch replica (same code, also on SQLite: the working-set
@@ -719,11 +730,31 @@ fn run_sqlkill(args: &Args) {
                 } else {
                     im.push(format!("interrupted {}", label));
                 }
+                if let Some(ro) = actual_ro {
+                    if ro != actual {
+                        im.push("durable-violation a read-only handle opened right after the kill does not see what a read-write handle sees".into());
+                    }
+                    o.push("Q".into());
+                    im.push("> Q".into());
+                    im.extend(ro);
+                }
                 o.push("Q".into());
                 im.push("> Q".into());
                 im.extend(actual);
                 label.to_string()
             } else {
+                // nothing was in flight: every acknowledged action must be there, and nothing else
+                if scratch.dump() != actual {
+                    im.push("durable-violation the reopened database is not the state after the acknowledged actions".into());
+                }
+                if let Some(ro) = actual_ro {
+                    if ro != actual {
+                        im.push("durable-violation a read-only handle opened right after the kill does not see what a read-write handle sees".into());
+                    }
+                    o.push("Q".into());
+                    im.push("> Q".into());
+                    im.extend(ro);
+                }
                 o.push("Q".into());
                 im.push("> Q".into());
                 im.extend(actual);
